@@ -50,6 +50,8 @@ var (
 	replSpec = flag.String("replace", "", "semicolon separated: pkgpath:from=To,from=To (from: pkg.Func or pkg.Type.Method; To: function of simrt)")
 
 	replaceTable = map[string]map[string]string{}
+	yieldSpec    = flag.String("yield", "", "comma separated pkgpath.Type.Method: put a scheduling point before calls of these methods")
+	yieldMethods = map[string]bool{}
 	warnings int
 	counts   = map[string]int{}
 )
@@ -93,6 +95,11 @@ func main() {
 		return os.Open(p.Export)
 	})
 	parseHB()
+	for _, y := range strings.Split(*yieldSpec, ",") {
+		if y = strings.TrimSpace(y); y != "" {
+			yieldMethods[y] = true
+		}
+	}
 	for _, part := range strings.Split(*replSpec, ";") {
 		part = strings.TrimSpace(part)
 		if part == "" {
@@ -1008,6 +1015,19 @@ func (rw *rewriter) callExpr(c *astutil.Cursor, call *ast.CallExpr) {
 			fn := sel.Obj().(*types.Func)
 			recvT := fn.Type().(*types.Signature).Recv().Type()
 			name := fn.Name()
+			// -yield: a plain scheduling point before listed methods of
+			// un-instrumented libraries (e.g. storage transactions).
+			if len(yieldMethods) > 0 {
+				rt := recvT
+				if p, ok := rt.(*types.Pointer); ok {
+					rt = p.Elem()
+				}
+				if n, ok := types.Unalias(rt).(*types.Named); ok && n.Obj().Pkg() != nil &&
+					yieldMethods[n.Obj().Pkg().Path()+"."+n.Obj().Name()+"."+name] {
+					rw.wrapCall(c, call, "call."+n.Obj().Name()+"."+name, 0, ast.NewIdent("nil"))
+					return
+				}
+			}
 			switch {
 			case isNamed(recvT, "sync", "Mutex") || isNamed(recvT, "sync", "RWMutex"):
 				repl := map[string]string{"Lock": "Lock", "Unlock": "Unlock", "RLock": "RLock", "RUnlock": "RUnlock"}[name]
